@@ -3707,7 +3707,7 @@ static int bufr_load_datasubsets( FILE *fp, BUFR_Dataset *dts, int lineno, BUFR_
             else 
                break;
             }
-         if (cb1->descriptor != icode)
+         if ((node1 == NULL) || (cb1->descriptor != icode)) /* no live descriptor follows: the line is for the skipped one */
             {
             node = lst_nextnode( node );
             continue;
